@@ -7,7 +7,9 @@ import SsqlVerif.Props.C17
 #print axioms C17.global_restart_state
 #print axioms C17.global_restart_empty
 #print axioms C17.global_group_isolation_partial
-#print axioms C17.global_group_isolation_fails
+#print axioms C17.keysInj_encGlobal
+#print axioms C17.global_group_isolation
+#print axioms C17.global_fires_and_result_global
 #print axioms C17.trigger_binding_same_call
 #print axioms C17.trigger_binding_sound
 #print axioms C17.global_trace_partial
